@@ -36,11 +36,26 @@ def contract_view(line):
     return abstract_errors(hist.strip_times(line))
 
 
+def spec_oracle(cases, mlines, ilines):
+    """the contracts of the path API applied to the implementation's transcript (independent of the model)"""
+    from props import spec
+    out = []
+    for c in cases:
+        fs = getattr(c, "first_snap", None)
+        if fs is None:
+            continue
+        for step, note in spec.check_case(c, c.cfg.target, ilines, fs):
+            out.append({"case": c.name, "case_text": c.text(), "step": step, "op": c.ops[step], "kind": "r",
+                        "model": mlines.get(("r", c.name, step)), "impl": ilines.get(("r", c.name, step)),
+                        "violates": True, "note": "contract oracle: " + note, "cfg": c.cfg.kind, "spec": True})
+    return out
+
+
 class HistProp:
     def __init__(self, prop, configs, typed=True, mix=None, with_times=False, project=None, want_logs=False,
                  quick_cases=12, thorough_cases=150, nops=(8, 18), oracle=None, known=None, sorted_mode=True,
                  builds=(False,), extra_gen=None, rule="", assumptions=None, snap_watch=False, corpus_cases=None,
-                 prepop_density=0.5, allow_big=True, after_prepop=None, hostile=0.1, finish=None):
+                 prepop_density=0.5, allow_big=True, after_prepop=None, hostile=0.1, finish=None, use_spec=False):
         self.prop = prop
         self.configs = configs
         self.typed = typed
@@ -65,6 +80,7 @@ class HistProp:
         self.after_prepop = after_prepop
         self.hostile = hostile
         self.finish = finish
+        self.use_spec = use_spec
 
     def corpus(self):
         return self.corpus_cases() if self.corpus_cases else []
@@ -110,6 +126,8 @@ class HistProp:
             all_dis += dis
             if self.oracle:
                 all_dis += self.oracle(cases, mlines, ilines)
+            if self.use_spec:
+                all_dis += spec_oracle(cases, mlines, ilines)
             by = {c.name: c for c in cases}
             for (kind, cname, step), line in ilines.items():
                 if kind != "r":
